@@ -322,6 +322,38 @@ example : some (sfac2elem ["C", "H", "O"] 3) = specElement ["C", "H", "O"] 3 := 
 example : sfac2elem ["C", "H", "O"] 4 = "" ∧ sfac2elem ["C", "H", "O"] 0 = "" ∧ sfac2elem ["C", "H", "O"] (-1) = "O" := by
   decide +kernel
 
+/-! ### the SFAC table over several SFAC instructions -/
+
+theorem foldl_snoc_eq_append (l t : List String) : l.foldl (fun t x => t ++ [x]) t = t ++ l := by
+  induction l generalizing t with
+  | nil => simp
+  | cons x r ih => simp [List.foldl_cons, ih]
+
+/-- **sfac_table_spec** — for any number of SFAC instructions of either form in any order, the table is the
+    concatenation of their elements in file order -/
+theorem sfac_table_spec (instrs : List SfacInstr) : sfacTable instrs = specSfacTable instrs := by
+  suffices H : ∀ t, instrs.foldl sfacStep t = t ++ specSfacTable instrs by simpa [sfacTable] using H []
+  induction instrs with
+  | nil => intro t; simp [specSfacTable]
+  | cons i r ih =>
+    intro t
+    rw [List.foldl_cons, ih]
+    cases i with
+    | elems l =>
+      simp only [sfacStep]
+      rw [foldl_snoc_eq_append]
+      simp [specSfacTable, List.flatMap_cons, List.append_assoc]
+    | explicit e => simp [sfacStep, specSfacTable, List.flatMap_cons]
+
+/-- **element_of_atom** — scattering-factor number `n` names the `n`-th element counted over all SFAC
+    instructions of the file -/
+theorem element_of_atom (instrs : List SfacInstr) (n : Int) (h1 : 1 ≤ n) (h2 : n ≤ (specSfacTable instrs).length) :
+    some (sfac2elem (sfacTable instrs) n) = specElement (specSfacTable instrs) n := by
+  rw [sfac_table_spec]
+  exact element_lookup _ n h1 h2
+
+example : sfacTable [.elems ["O", "N"], .explicit "CU", .elems ["C", "H"]] = ["O", "N", "CU", "C", "H"] := by decide +kernel
+
 /-! ### derived views -/
 
 theorem observed_atoms (file : List Line) (hv : valid file = true) :
